@@ -190,5 +190,5 @@ def _c023():
 
 OBLIGATIONS.append(_c023())
 
-from harness.codownload import OB_DL, protocol as co_download_protocol  # noqa: E402
+from harness.codownload import OB_DL, protocol_fixed as co_download_protocol  # noqa: E402
 OBLIGATIONS += [dict(OB_DL, id='C16.4', impl='co_download_protocol', cases=[('stream', 3, -1), ('stream', 4, -1)])]
